@@ -111,3 +111,62 @@ def inline_separately_parsed_types(schema, named_schemas):
         return node
 
     return walk(schema)
+
+
+def default_to_datum(default, schema, named_schemas):
+    """The datum that a field default denotes.
+
+    Defaults are written in JSON.  For `bytes` and `fixed` the JSON string
+    holds one character per byte (code points 0-255, i.e. ISO-8859-1), so it
+    has to be turned into `bytes` before it is written, validated or handed to
+    the caller; every other default already is the datum.  `schema` is the
+    parsed type of the field, `named_schemas` the table its references are
+    looked up in."""
+    if default is None or isinstance(default, (bool, int, float)):
+        return default
+
+    if isinstance(schema, list):
+        # The default of a union is for the first branch that it fits
+        from ._schema_py import _default_matches_schema
+
+        for branch in schema:
+            if _default_matches_schema(default, branch, named_schemas):
+                return default_to_datum(default, branch, named_schemas)
+        return default
+
+    if not isinstance(schema, dict):
+        if schema == "bytes":
+            schema = {"type": "bytes"}
+        elif schema in PRIMITIVES or schema not in named_schemas:
+            return default
+        else:
+            schema = named_schemas[schema]
+
+    schema_type = schema.get("type")
+    if schema_type in ("bytes", "fixed"):
+        if isinstance(default, str):
+            try:
+                return default.encode("iso-8859-1")
+            except UnicodeEncodeError:
+                pass  # not a bytes default; left for the caller to reject
+    elif schema_type == "array":
+        if isinstance(default, list):
+            items = schema["items"]
+            return [default_to_datum(d, items, named_schemas) for d in default]
+    elif schema_type == "map":
+        if isinstance(default, dict):
+            values = schema["values"]
+            return {
+                k: default_to_datum(d, values, named_schemas)
+                for k, d in default.items()
+            }
+    elif schema_type in ("record", "error"):
+        if isinstance(default, dict):
+            datum = dict(default)
+            for field in schema.get("fields", []):
+                if field["name"] in datum:
+                    datum[field["name"]] = default_to_datum(
+                        datum[field["name"]], field["type"], named_schemas
+                    )
+            return datum
+    return default
